@@ -26,6 +26,9 @@
  *                                a pipe) the J-th read() is answered EINTR once; several
  *                                directives give several indices
  *       pipe_frag=SEED           reads on pipes return between 1 and 97 bytes
+ *       fstat_size=SUFFIX:N      fstat()/statx(fd, "") of an open file whose path ends in SUFFIX
+ *                                succeeds but reports a size N bytes smaller than the file (the
+ *                                file grew after it was examined)
  *       mmap_err=SUFFIX:ERRNO    mmap() of an open file whose path ends in SUFFIX fails
  *       readdir_err=SUFFIX:K:ERRNO  the K-th readdir() on a directory whose path ends in SUFFIX
  *                                fails (the directory was opened and partly listed)
@@ -71,7 +74,9 @@ static int n_open, n_opendir, n_read, n_eof, n_stat, n_fstat;
 static long pipe_eintr_at[MAXRULES];
 static int n_pipe_eintr;
 static int pipe_frag_on;
-static struct rule mmap_rules[MAXRULES], readdir_rules[MAXRULES];
+static struct rule mmap_rules[MAXRULES], readdir_rules[MAXRULES], fsize_rules[MAXRULES];
+static int n_fsize;
+static long c_fsize;
 static int n_mmap, n_readdir;
 static long c_mmap_err, c_readdir_err;
 #define MAXDIRS 256
@@ -133,8 +138,8 @@ static void dump(void) {
     if (!out || !real_open || strcmp(program_invocation_short_name, "rg") != 0) return;
     char buf[1024];
     int n = snprintf(buf, sizeof buf,
-        "epipe=%ld\nshort_write=%ld\nopen_err=%ld\nopendir_err=%ld\nread_err=%ld\nread_eintr=%ld\nread_frag=%ld\nopens=%ld\nopens_after_epipe=%ld\nstdout_written=%ld\nread_eof=%ld\nstat_err=%ld\nfstat_err=%ld\npipe_eintr=%ld\npipe_frag=%ld\nstdout_frag=%ld\nstdout_eintr=%ld\nmmap_err=%ld\nreaddir_err=%ld\n",
-        c_epipe, c_short_write, c_open_err, c_opendir_err, c_read_err, c_read_eintr, c_read_frag, c_opens, c_opens_after_epipe, stdout_written, c_read_eof, c_stat_err, c_fstat_err, c_pipe_eintr, c_pipe_frag, c_out_frag, c_out_eintr, c_mmap_err, c_readdir_err);
+        "epipe=%ld\nshort_write=%ld\nopen_err=%ld\nopendir_err=%ld\nread_err=%ld\nread_eintr=%ld\nread_frag=%ld\nopens=%ld\nopens_after_epipe=%ld\nstdout_written=%ld\nread_eof=%ld\nstat_err=%ld\nfstat_err=%ld\npipe_eintr=%ld\npipe_frag=%ld\nstdout_frag=%ld\nstdout_eintr=%ld\nmmap_err=%ld\nreaddir_err=%ld\nfstat_size=%ld\n",
+        c_epipe, c_short_write, c_open_err, c_opendir_err, c_read_err, c_read_eintr, c_read_frag, c_opens, c_opens_after_epipe, stdout_written, c_read_eof, c_stat_err, c_fstat_err, c_pipe_eintr, c_pipe_frag, c_out_frag, c_out_eintr, c_mmap_err, c_readdir_err, c_fsize);
     int fd = real_open(out, O_WRONLY | O_CREAT | O_TRUNC, 0644);
     if (fd >= 0) { real_write(fd, buf, n); real_close(fd); }
 }
@@ -151,6 +156,7 @@ static void parse_plan(const char *plan) {
         else if (!strcmp(k, "fstat_err") && n_fstat < MAXRULES) parse_rule(&fstat_rules[n_fstat++], v, 0);
         else if (!strcmp(k, "pipe_eintr") && n_pipe_eintr < MAXRULES) pipe_eintr_at[n_pipe_eintr++] = atol(v);
         else if (!strcmp(k, "pipe_frag")) { pipe_frag_on = 1; pipe_frag_seed = strtoull(v, NULL, 10); }
+        else if (!strcmp(k, "fstat_size") && n_fsize < MAXRULES) parse_rule(&fsize_rules[n_fsize++], v, 0);
         else if (!strcmp(k, "mmap_err") && n_mmap < MAXRULES) parse_rule(&mmap_rules[n_mmap++], v, 0);
         else if (!strcmp(k, "readdir_err") && n_readdir < MAXRULES) parse_rule(&readdir_rules[n_readdir++], v, 1);
         else if (!strcmp(k, "stdout_frag")) { out_frag_on = 1; out_frag_rng = strtoull(v, NULL, 10) * 0x9E3779B97F4A7C15ULL | 1; }
@@ -281,17 +287,35 @@ static int fstat_fault(int fd) {
     return 1;
 }
 
+/* by how many bytes the reported size of this descriptor is to be reduced (0: not at all) */
+static long size_cut(int fd) {
+    if (!n_fsize || fd < 0 || fd >= MAXFD) return 0;
+    long cut = 0;
+    pthread_mutex_lock(&mu);
+    const char *p = fdpath[fd];
+    if (p) for (int i = 0; i < n_fsize; i++) if (ends_with(p, fsize_rules[i].suffix)) cut = fsize_rules[i].err;
+    if (cut) c_fsize++;
+    pthread_mutex_unlock(&mu);
+    return cut;
+}
+
 int fstat(int fd, struct stat *buf) {
     static int (*real)(int, struct stat *);
     if (!real) real = dlsym(RTLD_NEXT, "fstat");
     if (fstat_fault(fd)) return -1;
-    return real(fd, buf);
+    int r = real(fd, buf);
+    long cut = r == 0 ? size_cut(fd) : 0;
+    if (cut && S_ISREG(buf->st_mode)) buf->st_size = buf->st_size > cut ? buf->st_size - cut : 1;
+    return r;
 }
 int fstat64(int fd, struct stat64 *buf) {
     static int (*real)(int, struct stat64 *);
     if (!real) real = dlsym(RTLD_NEXT, "fstat64");
     if (fstat_fault(fd)) return -1;
-    return real(fd, buf);
+    int r = real(fd, buf);
+    long cut = r == 0 ? size_cut(fd) : 0;
+    if (cut && S_ISREG(buf->st_mode)) buf->st_size = buf->st_size > cut ? buf->st_size - cut : 1;
+    return r;
 }
 
 struct statx;
@@ -303,7 +327,16 @@ int statx(int dirfd, const char *path, int flags, unsigned int mask, struct stat
     const char *volatile p = path;
     if (p && !p[0] && fstat_fault(dirfd)) return -1;
     if (p && stat_fault(p)) return -1;
-    return real(dirfd, path, flags, mask, buf);
+    int r = real(dirfd, path, flags, mask, buf);
+    if (r == 0 && p && !p[0]) {
+        long cut = size_cut(dirfd);
+        /* struct statx: stx_size is the u64 at byte offset 40 (stable kernel ABI) */
+        if (cut) {
+            uint64_t *sz = (uint64_t *)((char *)buf + 40);
+            *sz = *sz > (uint64_t)cut ? *sz - (uint64_t)cut : 1;
+        }
+    }
+    return r;
 }
 int stat(const char *path, struct stat *buf) {
     static int (*real)(const char *, struct stat *);
